@@ -398,7 +398,10 @@ pub fn concretize(a: &Value) -> Model {
             illuminance: None,
         });
     }
-    for w in ga(a, "walls") {
+    // "placed" models: every element has a position (the elements stand 1000 m apart along the x axis), the windows sit
+    // side by side in their walls and may be set back, so that the computed obstruction factor is not 1
+    let placed = gb(a, "placed", false);
+    for (widx, w) in ga(a, "walls").iter().enumerate() {
         let area = gf(w, "area", 1e4, 10.0);
         m.walls.push(Wall {
             id: uuid_of(gi(w, "id")),
@@ -415,7 +418,7 @@ pub fn concretize(a: &Value) -> Model {
             geometry: WallGeom {
                 tilt: tilt_in_class(gs(w, "tilt"), gi(w, "id")),
                 azimuth: azimuth_in_class(gs(w, "orient"), gi(w, "id")),
-                position: None,
+                position: if placed { Some(point![1000.0 * widx as f32, 0.0, 0.0]) } else { None },
                 polygon: vec![point![0.0, 0.0], point![area, 0.0], point![area, 1.0], point![0.0, 1.0]],
             },
         });
@@ -425,14 +428,17 @@ pub fn concretize(a: &Value) -> Model {
             m.overrides.walls.insert(uuid_of(gi(w, "id")), WallPropsOverrides { u_value: Some(u) });
         }
     }
+    let mut used: std::collections::HashMap<i64, f32> = std::collections::HashMap::new();
     for w in ga(a, "windows") {
         let area = gf(w, "area", 1e4, 1.0);
+        let x0 = *used.get(&gi(w, "wall")).unwrap_or(&0.0);
+        used.insert(gi(w, "wall"), x0 + area);
         m.windows.push(Window {
             id: uuid_of(gi(w, "id")),
             name: format!("V{}", gi(w, "id")),
             cons: uuid_of(gi(w, "cons")),
             wall: uuid_of(gi(w, "wall")),
-            geometry: WinGeom { position: None, height: 1.0, width: area, setback: 0.0 },
+            geometry: WinGeom { position: if placed { Some(point![x0, 0.0]) } else { None }, height: 1.0, width: area, setback: if placed { gf(w, "sb", 1e2, 0.0) } else { 0.0 } },
         });
     }
     for t in ga(a, "tbs") {
